@@ -55,3 +55,128 @@ def run(rep, ctx, anchor, rule="R3"):
                     "the sub-verifier call at %s lies on every non-refusing path of its loop iteration" % t["span"] if by is None else
                     "one iteration of the loop around the sub-verifier call at %s can complete without it (via %s): that "
                     "element is not verified" % (t["span"], by), t["span"])
+
+
+# ---------------------------------------------------------------------------------------------------------
+# R3o: a rejection signalled by `None`
+OBSERVERS = ("ok_or", "ok_or_else", "unwrap", "expect", "is_none", "is_some", "branch", "unwrap_or", "unwrap_or_else",
+             "unwrap_or_default", "map_or", "map_or_else", "is_some_and", "is_none_or", "eq", "ne")
+KEEPERS = ("map", "as_ref", "as_mut", "as_deref", "cloned", "copied", "clone", "and_then", "filter", "take", "inspect")
+
+
+def _constructs_none(cb):
+    """the body builds `None` itself on some path (a computed absence, not a copied field)."""
+    for blk in cb.blocks:
+        if blk["cleanup"]:
+            continue
+        for st in blk["stmts"]:
+            rv = st["rv"]
+            if rv.get("k") == "agg" and rv.get("adt") == "std::option::Option" and rv.get("variant") == "None":
+                return True
+    return False
+
+
+def option_verdict_sites(ctx, g):
+    """calls, in the verifier's scope, of crate functions (not closures) that return `Option<_>` and build `None`
+    themselves: the absence is a result of the callee's computation - for a sub-verifier, its rejection."""
+    f = ctx.facts
+    out = []
+    for bid in sorted(g.scope):
+        b = f.bodies[bid]
+        for i, t in b.calls():
+            dty = strip_refs(g._place_ty(b, t["dst"]) or "")
+            if not dty.startswith("std::option::Option<") or t["dst"]["p"]:
+                continue
+            tg = [c for c in f.call_targets(t, g.ctx_adt) if f.bodies[c].kind != "Closure"]
+            if tg and any(_constructs_none(f.bodies[c]) for c in tg):
+                out.append((bid, i, t))
+    return out
+
+
+def _observed(b, local, depth=0):
+    """the variant of the Option in `local` is looked at: a `match` / `if let` (discriminant read), a refusing or
+    testing carrier (`?`, `ok_or`, `unwrap`, `is_none`, ..), or it is handed back to the caller. Adaptors that keep the
+    variant (`map`, `as_ref`) pass the duty on to their result. Storing it in a container or feeding it to an adaptor
+    that silently drops `None` (`flatten`, `filter_map`, `flat_map`) is not an observation."""
+    if depth > 6:
+        return True
+    copies = {local}
+    changed = True
+    while changed:
+        changed = False
+        for blk in b.blocks:
+            for st in blk["stmts"]:
+                rv, d = st["rv"], st["dst"]
+                if d["p"] or d["l"] in copies:
+                    continue
+                src = rv["pl"] if rv.get("k") == "ref" else (rv["ops"][0].get("pl") if rv.get("k") == "use" and rv["ops"][0]["k"] in ("copy", "move") else None)
+                if src is not None and src["l"] in copies and all(e == "*" for e in src["p"]):
+                    copies.add(d["l"])
+                    changed = True
+    if 0 in copies:
+        return True
+    for blk in b.blocks:
+        if blk["cleanup"]:
+            continue
+        for st in blk["stmts"]:
+            rv = st["rv"]
+            if rv.get("k") == "discr" and rv["pl"]["l"] in copies:
+                return True
+            if st["dst"]["l"] == 0 and any(o["k"] in ("copy", "move") and o["pl"]["l"] in copies for o in rv.get("ops", [])):
+                return True     # wrapped into the return value: the caller's business
+        t = blk["term"]
+        if t["k"] == "call" and t["args"] and t["args"][0]["k"] in ("copy", "move") and t["args"][0]["pl"]["l"] in copies:
+            nm = (t.get("callee") or "").rsplit("::", 1)[-1]
+            if nm in OBSERVERS:
+                return True
+            if nm in KEEPERS and not t["dst"]["p"] and _observed(b, t["dst"]["l"], depth + 1):
+                return True
+    return False
+
+
+def _observed_directly(b, l):
+    for blk in b.blocks:
+        if blk["cleanup"]:
+            continue
+        for st in blk["stmts"]:
+            rv = st["rv"]
+            if rv.get("k") == "discr" and rv["pl"]["l"] == l:
+                return True
+        t = blk["term"]
+        if t["k"] == "call" and t["args"] and t["args"][0]["k"] in ("copy", "move") and t["args"][0]["pl"]["l"] == l \
+                and (t.get("callee") or "").rsplit("::", 1)[-1] in OBSERVERS:
+            return True
+    return False
+
+
+def run_option(rep, ctx, anchor, rule="R3"):
+    g = ctx.graph(anchor)
+    f = ctx.facts
+    n = 0
+    per = {}
+    for bid, i, t in option_verdict_sites(ctx, g):
+        n += 1
+        callee = re.sub(r"<.*?>", "", t.get("resolved") or t.get("callee") or "?").replace("::::", "::")
+        k = per.get((bid, callee), 0)
+        per[(bid, callee)] = k + 1
+        ok = _observed(f.bodies[bid], t["dst"]["l"])
+        if not ok:
+            # stored first and examined later (`results.iter().any(|r| r.is_none())`): some value of the same Option
+            # type is observed in this function or in one of its closures
+            want = strip_refs(g._place_ty(f.bodies[bid], t["dst"]) or "")
+            fam = [x for x in g.scope if x == bid or (f.bodies[x].kind == "Closure" and f.bodies[x].root == f.bodies[bid].root)]
+            for x in fam:
+                bx = f.bodies[x]
+                for l, loc in enumerate(bx.locals):
+                    if l != t["dst"]["l"] or x != bid:
+                        if strip_refs(loc["ty"] or "") == want and _observed_directly(bx, l):
+                            ok = True
+                            break
+                if ok:
+                    break
+        rep.add(rule, "%s:absence:%s@%s#%d" % (anchor.key, callee, short(bid), k), ok,
+                ("whether %s returned None is looked at where it is called (%s)" % (callee, t["span"])) if ok else
+                ("%s can answer None (it builds one itself), and the call at %s never looks at the variant: the result is "
+                 "stored or handed to an adaptor that silently drops None - a rejection signalled that way is lost" % (callee, t["span"])),
+                t["span"])
+    return n
